@@ -72,6 +72,15 @@ Goal forall l ps, Forall (c15_code_neutral l) ps ->
   c15_contained l LCode (mark (c15_file_pieces l ps)) = forallb (c15_part_safe l) ps.
 Proof. exact Props.C15.C15_file_partial. Qed.
 Print Assumptions Props.C15.C15_file_partial.
+Goal forall (uc : unicode) (cfg : ts_config) it st text st',
+  ts_write_item uc cfg it st = Ok (text, st') ->
+  exists parts,
+    text = text_of (c15_file_pieces C15ts parts) /\
+    docs_of (c15_file_pieces C15ts parts) = c15_item_docs it /\
+    (Forall (c15_code_neutral C15ts) parts ->
+     c15_contained C15ts LCode (mark (c15_file_pieces C15ts parts)) = forallb safe_ts (c15_item_docs it)).
+Proof. exact Props.C15.C15_ts_item_partial. Qed.
+Print Assumptions Props.C15.C15_ts_item_partial.
 Goal Proofs.C15.c15_refutes C15kt (lit "alpha" ++ [ch_nl] ++ lit "beta").
 Proof. exact Props.C15.C15_kt_refuted. Qed.
 Print Assumptions Props.C15.C15_kt_refuted.
